@@ -74,7 +74,16 @@ def build(case):
             seq.append({"ok": "$echo", "delay": (case.get("timeout") or 2) + 3})
         else:
             seq.append({"err": o, "msg": "boom"})
-    if kind == "Map":
+    if kind == "Parallel" and case.get("inner_retry"):
+        # the failing Branch's Task is first retried by a Retrier of its own (and then fails with an error that Retrier does not name)
+        s1["Branches"][0]["States"]["B1"]["Retry"] = [{"ErrorEquals": ["Inner.Retry"], "IntervalSeconds": 1, "MaxAttempts": 3, "BackoffRate": 1.0}]
+        oracle = {"f1": {"seq": [{"err": "Inner.Retry", "msg": "again"}] * case["inner_retry"] + seq}}
+    elif kind == "Map" and case.get("inner_retry"):
+        # the Task inside the Iterator has a Retrier of its own, used (successfully) by item 0 in an earlier MaxConcurrency block than the failing item 1:
+        # its retry count belongs to that Task and must not count against the Map state's own Retriers
+        s1["ItemProcessor"]["States"]["B1"]["Retry"] = [{"ErrorEquals": ["Inner.Retry"], "IntervalSeconds": 1, "MaxAttempts": 3, "BackoffRate": 1.0}]
+        oracle = {"f1": {"seq": [{"ok": "$echo"}], "by_key": {json.dumps(1): seq, json.dumps(0): [{"err": "Inner.Retry", "msg": "again"}] * case["inner_retry"] + [{"ok": "$echo"}]}}}
+    elif kind == "Map":
         oracle = {"f1": {"seq": [{"ok": "$echo"}], "by_key": {json.dumps(1): seq}}}
     else:
         oracle = {"f1": {"seq": seq}}
@@ -196,11 +205,16 @@ def shard(k, seed, tier, examples=80):
         if draw(st.integers(0, 7)) == 0:
             case["self_error"] = draw(st.sampled_from(["resultpath", "intrinsic", "runtime"]))
             case["outcomes"] = ["ok"]
+        if kind == "Parallel" and "self_error" not in case and draw(st.integers(0, 2)) == 0:
+            case["inner_retry"] = draw(st.integers(1, 2))
         if kind == "Map":
             case["mc"] = draw(st.sampled_from([0, 0, 1, 2]))
+            if case["mc"] == 1 and "self_error" not in case and draw(st.booleans()):
+                case["inner_retry"] = draw(st.integers(1, 2))
         if "self_error" not in case and draw(st.integers(0, 7)) == 0:
             # execution time-out strictly before any task time-out: handlers on States.Timeout / States.ALL must not see it
             case["exec_timeout"] = draw(st.integers(1, 3))
+            case.pop("inner_retry", None)       # (its 1 s retry interval could end exactly at the execution's deadline: a tie)
             case["outcomes"] = ["slow"] + case["outcomes"]
             case["timeout"] = draw(st.sampled_from([None, case["exec_timeout"] + 2]))
             if case["timeout"] is None:
@@ -221,7 +235,7 @@ def shard(k, seed, tier, examples=80):
             return
         nt = info["retries"] >= 1 or any(True for c in info["caught"]) and len(case["catch"]) > 1
         camp.case(case, nontrivial=bool(nt), classes=["kind-" + case["kind"], "retries-%d" % min(info["retries"], 4), "caught" if info["caught"] else "not-caught",
-                                                      "multi-retrier" if info["multi_retrier"] else "single-retrier", "type-" + case["type"]] + (["self-error-" + case["self_error"]] if case.get("self_error") else []) + (["execution-timeout-during-task"] if case.get("exec_timeout") else []),
+                                                      "multi-retrier" if info["multi_retrier"] else "single-retrier", "type-" + case["type"]] + (["self-error-" + case["self_error"]] if case.get("self_error") else []) + (["execution-timeout-during-task"] if case.get("exec_timeout") else []) + (["inner-task-retried-in-earlier-block"] if case.get("inner_retry") else []),
                   sample=dict(case, expected=info["expected"], observed=info.get("observed")))
         for b, d in fails:
             camp.fail(b, case, d)
